@@ -2,7 +2,7 @@
 EXTENDS Lexer
 StmtsA == { St("lab", "g1", 0, 0), St("i0", "", 0, 0), St("i1n", "", 5, 0), St("i1l", "g1", 0, 0), St("i1r", "a", 0, 0),
             St("i1r", "b", 0, 0), St("dat", "", 17, 34), St("i1c", "", 97, 0), St("i1c", "", 65, 0), St("str", "", 0, 0),
-            St("lab", "l1", 0, 0), St("i1l", "l1", 0, 0), St("strg", "", 0, 0), St("brx", "g1", 0, 0), St("ldo", "", 0, 0) }
+            St("lab", "l1", 0, 0), St("i1l", "l1", 0, 0), St("strg", "", 0, 0), St("brx", "g1", 0, 0), St("ldo", "", 0, 0), St("strt", "", 0, 0) }
 StmtsB == { St("lab", "g1", 0, 0), St("i0", "", 0, 0), St("i1n", "", 5, 0), St("i1l", "g1", 0, 0), St("i1r", "a", 0, 0), St("dat", "", 17, 34), St("brx", "g1", 0, 0), St("ldo", "", 0, 0),
             St("lab", "l1", 0, 0), St("i1l", "l1", 0, 0) }
 \* preprocessor statements among ordinary ones
